@@ -59,15 +59,79 @@ theorem unmatched_exact {F : Type} (files : List F) (pm : F → Suppr → Bool) 
           selfSuppressed (unmatchedGlobal (recopy st)) s = false)) :=
   report_iff files pm inl filt st s
 
-/-- **Never for a suppression that matched**: if some call after the entry was added matched it, no report names it. -/
-theorem never_for_matched {F : Type} (v : Suppr → Msg → Res) (hv : FlagFree v) (st0 : State) (ops : List Op)
-    (files : List F) (pm : F → Suppr → Bool) (inl : Bool) (filt : Suppr → Bool) (e : Suppr)
-    (he : e ∈ runOps v st0 ops) (s0 : Suppr) (after : List Op) (ho : Origin st0 ops s0 after) (hev : e = evolve v s0 after)
-    (hm : MatchedBy v after s0) : e ∉ report files pm inl filt (runOps v st0 ops) := by
-  have _ := he
+/-- **The property, composed**: reported ⇔ applied to analysed code ∧ matched no finding, in terms of the *history* only.
+    For an entry with origin `s0` (initial list or an `add`) that lived through the calls `after`: it is named by an
+    unmatchedSuppression message iff no bail-out, it survived into the copy list, it started unmatched and **no call matched
+    it**, it has no hash, is not filtered, and, by scope:
+    file-local — an analysed file matches and (no line number ∨ it started checked ∨ **some call or token line checked it**);
+    inline — `--inline-suppr` and it was checked;  global / wildcard — not a wildcard, or it was checked. -/
+theorem reported_iff_history {F : Type} (v : Suppr → Msg → Res) (hv : FlagFree v) (st0 : State) (ops : List Op)
+    (files : List F) (pm : F → Suppr → Bool) (inl : Bool) (filt : Suppr → Bool) (s0 : Suppr) (after : List Op) :
+    let st := runOps v st0 ops
+    let e := evolve v s0 after
+    e ∈ report files pm inl filt st ↔
+      bail st = false ∧ e ∈ recopy st ∧ ¬ (s0.matched = true ∨ MatchedBy v after s0) ∧ s0.hash = 0 ∧ filt e = false ∧
+      ((s0.isInline = false ∧ s0.isLocal = true ∧ s0.type ≠ .macro ∧ s0.errorId ≠ checkersReportId ∧
+          (s0.lineNumber = noLine ∨ s0.checked = true ∨ CheckedBy v after s0) ∧
+          ∃ f ∈ files, pm f e = true ∧ selfSuppressed (unmatchedLocal (pm f) (recopy st)) e = false) ∨
+       (s0.isInline = true ∧ inl = true ∧ (s0.checked = true ∨ CheckedBy v after s0) ∧
+          selfSuppressed (unmatchedInline (recopy st)) e = false) ∨
+       (s0.isInline = false ∧ s0.isLocal = false ∧ s0.errorId ≠ checkersReportId ∧
+          ((s0.checked = true ∨ CheckedBy v after s0) ∨ s0.isWildcard = false) ∧
+          selfSuppressed (unmatchedGlobal (recopy st)) e = false)) := by
+  intro st e
+  have hc : clear e = clear s0 := clear_evolve v after s0
+  have hfl := evolve_flags v hv after s0
+  have h1 : e.hash = s0.hash := congrArg (·.hash) hc
+  have h2 : e.isInline = s0.isInline := congrArg (·.isInline) hc
+  have h3 : e.isLocal = s0.isLocal := congrArg (·.isLocal) hc
+  have h4 : e.type = s0.type := congrArg (·.type) hc
+  have h5 : e.errorId = s0.errorId := congrArg (·.errorId) hc
+  have h6 : e.lineNumber = s0.lineNumber := congrArg (·.lineNumber) hc
+  have h7 : e.isWildcard = s0.isWildcard := congrArg (·.isWildcard) hc
+  have hm : e.matched = false ↔ ¬ (s0.matched = true ∨ MatchedBy v after s0) := by
+    rw [← hfl.2]; cases e.matched <;> simp
+  rw [unmatched_exact, hm, h1, h2, h3, h4, h5, h6, h7, hfl.1]
+
+/-- the history theorem is about entries that are really in the list: every entry of the final list has such an origin -/
+theorem reported_has_origin (v : Suppr → Msg → Res) (st0 : State) (ops : List Op) (e : Suppr) (he : e ∈ runOps v st0 ops) :
+    ∃ s0 after, Origin st0 ops s0 after ∧ e = evolve v s0 after :=
+  runOps_origin v ops st0 e he
+
+/-- **Never for a suppression that matched**: an entry of the list whose `matched` flag is set is in no report, and (history
+    form) neither is an entry that some call after its origin matched. -/
+theorem never_for_matched {F : Type} (v : Suppr → Msg → Res) (hv : FlagFree v) (st : State)
+    (files : List F) (pm : F → Suppr → Bool) (inl : Bool) (filt : Suppr → Bool) :
+    (∀ e, e.matched = true → e ∉ report files pm inl filt st) ∧
+    (∀ s0 after, MatchedBy v after s0 → evolve v s0 after ∉ report files pm inl filt st) := by
+  refine ⟨fun e h => not_reported_of_matched files pm inl filt st e h, fun s0 after hm => ?_⟩
   apply not_reported_of_matched
-  rw [hev]
   exact (evolve_flags v hv after s0).2.mpr (Or.inr hm)
+
+/-- **Every token position is marked**: after `markUnmatchedInlineSuppressionsAsChecked` over a token stream, every entry whose
+    scope contains the (file, line) of some token is checked — whatever the neighbouring tokens are (in particular when the
+    stream changes file at an unchanged line number).  `markStream` is the loop with its current-position variables. -/
+theorem mark_complete (toks : List (Str × Int)) (st : State) (l : Str × Int) (hl : l ∈ toks) (s : Suppr) (hs : s ∈ st)
+    (hit : markHit l s = true) :
+    ∃ s' ∈ markStream none toks st, clear s' = clear s ∧ s'.checked = true := by
+  rw [markStream_eq_mark, mark_map]
+  refine ⟨evolve1 (fun _ _ => Res.none) s (.mark toks), List.mem_map.mpr ⟨s, hs, rfl⟩, clear_evolve1 _ s _, ?_⟩
+  exact (markFold_flags toks s).1.mpr (Or.inr ⟨l, hl, hit⟩)
+
+example : ((markStream none [("h.h".toList, 3), ("a.c".toList, 3)] [mkSuppr "nullPointer" "a.c" 3]).map (·.checked)) = [true] := by
+  decide
+
+/-- **The worker's logger leaves the flags of the single call** (thread / process executor, cc259cb): asking the file-local
+    suppressions first and then all of them = asking all of them once. -/
+theorem worker_reportErr_equals_single_call (v : Suppr → Msg → Res) (hv : FlagFree v) (st : State) (m : Msg) :
+    workerReportErr true v st m = stepOp v st (.sup true m) :=
+  workerReportErr_true_eq v hv st m
+
+/-- **At the suppression's own location**: the message names the suppression's id, carries its file, line (0 when it has none)
+    and column, and has no location at all when the suppression has no file name. -/
+theorem message_location (s : Suppr) :
+    message s = (s.isPolyspace, s.errorId, s.fileName, (if s.lineNumber == noLine then 0 else s.lineNumber),
+      (if s.fileName.isEmpty then 0 else s.column)) := rfl
 
 example : (report [()] (fun _ s => s.fileName == "a.c".toList) false (fun _ => false)
     (runOps toyVerdict [] [.add (mkSuppr "nullPointer" "a.c" 3), .add (mkSuppr "zerodiv" "a.c" noLine), .add (mkSuppr "memleak" "" noLine),
